@@ -512,8 +512,31 @@ def _visit(hist, rec, seen):
 
 
 def _script(hist):
-    lines = ["import numpy as np, dreye", "est = dreye.ReceptorEstimator(np.array(%r), domain=np.array(%r))" % (FILTERS.tolist(), DOM.tolist())]
+    """stand-alone replay of a history (numpy + dreye only): performs the registration calls and prints a few answers"""
+    A = lambda a: "np.array(%r)" % (np.asarray(a).tolist(),)  # noqa
+    lines = ["import numpy as np, dreye", "est = dreye.ReceptorEstimator(%s, domain=%s)" % (A(FILTERS), A(DOM))]
+    n = 3
     for i in hist:
-        lines.append("# %s %s" % OPS[i])
-    lines.append("# (replay with: ./check C14 --replay <json>)")
+        name, arg = OPS[i]
+        if name == "register_system":
+            n = 3 if arg == "S3" else 2
+            lines.append("est.register_system(%s)" % A(S3) if arg == "S3" else "est.register_system(%s, lb=%s, ub=%s)" % (A(S2), A([0.0, 0.25]), A([1.0, 1.5])))
+        elif name == "register_bounds":
+            lines.append("est.register_bounds(lb=%s, ub=%s)" % (A(np.full(n, 0.125)), A(1.0 + 0.5 * np.arange(n))) if arg == "both" else "est.register_bounds(ub=%s)" % A(np.full(n, 2.0)))
+        elif name == "register_adaptation":
+            lines.append("est.register_adaptation(%s)" % (A([0.5, 2.0]) if arg == "vector" else "1.5"))
+        elif name == "register_baseline":
+            lines.append("est.register_baseline(%s)" % (A([0.25, 0.5]) if arg == "vector" else "0.0"))
+        elif name == "register_background_adaptation":
+            lines.append("est.register_background_adaptation(%s, add=%r)" % (A(BG1 if arg == "replace" else BG2), arg == "add"))
+        elif name == "register_system_adaptation":
+            lines.append("est.register_system_adaptation(%s, add=%r)" % (A(np.full(n, 0.5) if arg == "replace" else 0.25 + 0.25 * np.arange(n)), arg == "add"))
+        elif name == "register_targets":
+            lines.append("est.register_targets(%s)" % A(T1) if arg == "T1" else "est.register_targets(%s, W=%s)" % (A(T2), A(W2)))
+        elif name == "fit":
+            lines.append("est.fit()")
+    lines.append("Bq = np.array([[0.75, 0.75], [0.25, 2.0], [1.0, 0.5]])")
+    lines.append("print('K', est.K, 'baseline', est.baseline)")
+    lines.append("print('in_hull', est.in_hull(Bq)); print('fit', est.fit(Bq))")
+    lines.append("# the full oracle set is re-run by:  ./check C14 --replay <json>")
     return "\n".join(lines) + "\n"
